@@ -23,8 +23,9 @@ CURRENT = "1.2"
 
 
 def rpm_arches():
-    import productmd.common
-    return list(productmd.common.RPM_ARCHES)
+    """the documented architecture table - the harness's OWN copy (an arch that silently drops out of, or slips into, the
+    library's list must not take the oracle with it)"""
+    return list(pools.RPM_ARCHES_DOC)
 
 
 def _is_int(v):
@@ -728,6 +729,60 @@ class IMMachine(FormatMachine):
         d = first_diff(merged_cells, after["cells"])
         raise Violation("C09", "C09.add_changes_only_addressed_cell", "load-onto-effect-differs/%s" % diff_key(d), {"diff": d})
 
+    def op_im_legacy_onto(self, op):
+        """A SECOND older-format document (1.0 / 1.1: source images under a 'src' key) is loaded into the live object, which
+        already went through a load.  Whether load merges or replaces is not specified - but the source images of THIS
+        document go under THIS document's binary arches of their variant, and no source key appears."""
+        s = self.slot(op)
+        if s is None or s.obj is None or s.tainted:
+            return "noop"
+        ver = op.get("version", "1.0")
+        variant = op.get("variant", "Server")
+        arches = [a for a in op.get("arches", ["ppc64le"]) if a not in ("src", "nosrc")]
+        if not arches:
+            return "noop"
+
+        def img(path, arch, n):
+            d = {"arch": arch, "bootable": False, "checksums": {"sha256": ("%02x" % (n + 1)) * 32}, "disc_count": 1, "disc_number": 1, "format": "iso",
+                 "implant_md5": None, "mtime": 1, "path": path, "size": 1, "type": "dvd", "volume_id": None}
+            if vtuple(ver) >= (1, 1):
+                d["subvariant"] = "onto%d" % n
+            return d
+        cells = {variant: dict((a, [img("onto/%s/%s/b-%d.iso" % (variant, a, k), a, 10 * k + i)]) for i, (k, a) in enumerate(enumerate(arches)))}
+        srcs = [img("onto/%s/source/s-%d.iso" % (variant, k), "src", 50 + k) for k in range(op.get("nsrc", 1))]
+        cells[variant]["src"] = srcs
+        hdr = {"version": ver} if vtuple(ver) <= (1, 0) else {"version": ver, "type": "productmd.images"}
+        doc = {"header": hdr, "payload": {"compose": dict((k, v) for k, v in norm_compose(s.model["compose"]).items() if k in ("id", "date", "type", "respin")),
+                                          "images": cells}}
+        path = "/sim/d/legacy-onto.json"
+        self.fs.put(path, json.dumps(doc, indent=4, sort_keys=True))
+        CTX.fault("F8.older_format_on_disk")
+        try:
+            s.obj.load(self.arg(path))
+        except Exception as e:
+            if isinstance(e, HarnessError):
+                raise
+            s.tainted = True
+            return "refused:" + exc_class(e)        # (not specified for an object that already holds content)
+        s.tainted = True                             # merge or replace: the model no longer knows the rest of the manifest
+        got = observe_im(s.obj)["cells"]
+        self.count("C10", ["legacy-onto", ver, len(arches), len(srcs)])
+        have = got.get(variant, {})
+        for a in have:
+            if a in ("src", "nosrc"):
+                raise Violation("C10", "C10.no_source_arch_after_load", "source-arch-key-after-load/%s" % a, {"variant": variant, "history": "second-legacy-load"})
+        for a in arches:
+            paths = set(i["path"] for i in have.get(a, []))
+            for sdoc in srcs:
+                if sdoc["path"] not in paths:
+                    raise Violation("C10", "C10.source_images_under_every_binary_arch", "upgrade-differs/images/v%s/second-load/%s" % (ver, a),
+                                    {"missing": sdoc["path"], "arch": a, "has": sorted(paths)[:4]})
+        for a, imgs in have.items():
+            if a not in arches and any(i["path"].startswith("onto/%s/source/" % variant) for i in imgs):
+                raise Violation("C10", "C10.source_images_under_every_binary_arch", "upgrade-differs/images/v%s/second-load/foreign-arch" % ver,
+                                {"arch": a, "document_arches": arches})
+        return "ok"
+
     def op_im_downgrade(self, op):
         """F8: the stored manifest is rewritten the way format 1.0 / 1.1 would have held it (independent
         down-converter following doc/images-1.0.rst, images-1.1.rst): no header type and no subvariant in
@@ -764,6 +819,8 @@ class IMMachine(FormatMachine):
                         else:
                             keep.append(img)
                     cells[variant][arch] = keep
+                if not src and op.get("empty_src"):
+                    cells[variant]["src"] = []          # the key is there, the list is empty
                 if src:
                     cells[variant]["src"] = [src[k] for k in sorted(src)]
                     if op.get("drop_empty"):
